@@ -279,6 +279,56 @@ impl Property for C12 {
                     return Verdict::fail(format!("c12.{}", k), format!("after step {} ({}): {} [outcome {:?}]", step, op, d, out));
                 }
             }
+            // bottom-up: a cycle or a node cut out of its parent's list is not reachable from any root, so every
+            // pool node is also followed upwards
+            let bound = pool.nodes.len() + 64;
+            for n in &pool.nodes {
+                if matches!(n, XmlNode::Document(_) | XmlNode::DocumentType(_) | XmlNode::Attribute(_)) {
+                    continue;
+                }
+                let mut cur = n.clone();
+                let mut steps = 0usize;
+                while let Some(p) = cur.parent_node() {
+                    steps += 1;
+                    if steps > bound {
+                        return Verdict::fail(
+                            format!("c12.cycle.parent-chain.{}", hist::kind_name(n)),
+                            format!("after step {} ({}): following parent_node() from {} id {} does not end after {} steps [outcome {:?}]", step, op, hist::kind_name(n), n.id(), bound, out),
+                        );
+                    }
+                    cur = p;
+                }
+                if matches!(n, XmlNode::ExpandedText(_)) {
+                    // a merged-text handle is a snapshot of adjacent pieces; after an edit next to it the parent
+                    // presents a different merged node, so listing cannot be decided for the stale handle
+                    continue;
+                }
+                if let Some(p) = n.parent_node() {
+                    // value pieces of a DTD-defaulted attribute are shared between elements (open finding)
+                    if matches!(p, XmlNode::Attribute(_)) && p.id() == 0 {
+                        continue;
+                    }
+                    let listed = p.child_nodes().iter().any(|c| c.id() == n.id() && std::mem::discriminant(&c) == std::mem::discriminant(n))
+                        || p.child_nodes().iter().any(|c| match &c {
+                            // merged-text view: a piece is listed through its merged node
+                            XmlNode::ExpandedText(_) => matches!(n, XmlNode::Text(_) | XmlNode::CData(_) | XmlNode::EntityReference(_)),
+                            _ => false,
+                        });
+                    if !listed {
+                        let k = format!("c12.parent-does-not-list-child.{}", hist::kind_name(n));
+                        if crate::engine::skip_known("C12", &k) {
+                            if !obs.known_hits.contains(&k) {
+                                obs.known_hits.push(k);
+                            }
+                            continue;
+                        }
+                        return Verdict::fail(
+                            k,
+                            format!("after step {} ({}): {} id {} reports parent {} id {}, whose child list does not contain it [outcome {:?}]", step, op, hist::kind_name(n), n.id(), hist::kind_name(&p), p.id(), out),
+                        );
+                    }
+                }
+            }
         }
         obs.nontrivial = Some(moved || detached_insert || fail_then_ok);
         if moved {
